@@ -44,6 +44,8 @@ def make_tagger(variant_seed: int, density: float):
     from pytato.target.loopy import ImplSubstitution
     rng = random.Random(variant_seed)
     stats: dict[str, int] = {}
+    named_used: set[str] = set()
+    POOL = ["tmp", "stage", "acc", "q"]
 
     def tagger(node, ordinal, op):
         r = random.Random(variant_seed * 100_003 + ordinal)   # per-node decisions independent of order
@@ -71,10 +73,19 @@ def make_tagger(variant_seed: int, density: float):
             if c == "subst":
                 return node.tagged(ImplSubstitution())
             if c == "prefix":
-                return node.tagged(PrefixNamed(r.choice(["tmp", "stage", "acc", "q"])))
+                tg = PrefixNamed(r.choice(POOL))
+                return node.tagged((tg, ImplStored()) if r.random() < 0.5 else tg)
             if c == "named":
-                # Named yields exactly that name: must be unique in the kernel
-                return node.tagged((Named(f"nm{ordinal}_{variant_seed % 1000}"), ImplStored()))
+                # Named yields exactly that name: must be unique in the kernel; half of the time a name the
+                # PrefixNamed tags of this program ask for as well
+                free = [n for n in POOL if n not in named_used]
+                if free and r.random() < 0.5:
+                    nm = r.choice(free)
+                    named_used.add(nm)
+                    tagger.named_from_pool = True
+                else:
+                    nm = f"nm{ordinal}_{variant_seed % 1000}"
+                return node.tagged((Named(nm), ImplStored()))
             if c == "redn":
                 if isinstance(node, IndexLambda) and node.var_to_reduction_descr:
                     v = sorted(node.var_to_reduction_descr)[0]
@@ -88,6 +99,7 @@ def make_tagger(variant_seed: int, density: float):
             return node
         return node
     tagger.stats = stats
+    tagger.named_from_pool = False
     return tagger
 
 
@@ -113,6 +125,7 @@ def run(ctx: common.Ctx):
             pv = programs.generate(ctx.seed + 700, i, tagger=tg)
             for k, n in tg.stats.items():
                 allstats[k] = allstats.get(k, 0) + n
+            pv.named_from_pool = tg.named_from_pool
             variants.append((f"v{v}", pv))
         for vn, pv in variants:
             jobs.append(cexec.Job(tag=f"p{i}:{vn}", expr=pv.expr(), runs=runs, prep=_prep_dedup,
@@ -148,7 +161,11 @@ def run(ctx: common.Ctx):
                 continue
             # code generation fails for the tagged variant only?
             b = [r for (j, v2, *_), r in zip(meta, results) if j == i and v2 == "untagged"][0]
-            if vn != "untagged" and not b.error:
+            if vn != "untagged" and not b.error and getattr(pv, "named_from_pool", False) \
+                    and res.error_class == "ValueError" and "conflict" in (res.error or ""):
+                # "a Named tag yields exactly that name or an error": the name was handed out before
+                unsupported["explicit Named-conflict diagnostic"] = unsupported.get("explicit Named-conflict diagnostic", 0) + 1
+            elif vn != "untagged" and not b.error:
                 dis += 1
                 ctx.violation(f"tags:codegen-fails-when-tagged:{res.error_class}:{_short(res.error)}",
                               f"program {i} variant {vn}: {res.stage} failed although the untagged program "
@@ -218,7 +235,67 @@ def run(ctx: common.Ctx):
     ctx.coverage["executor_unsupported"] = unsupported
     ctx.note_batch("tag-variants-vs-untagged-vs-reference", len(jobs), dis, exhaustive=False,
                    programs=nprog, variants_per_program=nvar + 1, tag_kinds_applied=allstats)
+    batch_chained_name_tags(ctx)
     ctx.broken = sorted(set(ctx.broken))[:50]
+
+
+def batch_chained_name_tags(ctx):
+    """stored intermediates in a chain p -> q(p) -> out(p, q), every pair of implementation/name tags on p and q
+    (the same name asked for twice, by Named and PrefixNamed in both orders): tagged == untagged == NumPy, or an
+    explicit Named-conflict diagnostic"""
+    import itertools
+    import pytato as pt
+    from pytato.tags import ImplInlined, ImplStored, Named, PrefixNamed
+    from pytato.target.loopy import ImplSubstitution
+    x = pt.make_placeholder("x", (4,), np.float64)
+    m = pt.make_placeholder("m", (3, 4), np.float64)
+    inp = {"x": np.arange(4.0) + 1, "m": np.arange(12.0).reshape(3, 4) - 3}
+    tagsets = {
+        "none": (), "stored": (ImplStored(),), "inlined": (ImplInlined(),), "subst": (ImplSubstitution(),),
+        "named-tmp": (Named("tmp"), ImplStored()), "prefix-tmp": (PrefixNamed("tmp"), ImplStored()),
+        "prefix-tmp-unstored": (PrefixNamed("tmp"),), "named-other": (Named("other"), ImplStored()),
+        "prefix-x": (PrefixNamed("x"), ImplStored()), "prefix-out": (PrefixNamed("out"), ImplStored()),
+    }
+    shapes = {
+        "vector": lambda tp, tq: (lambda p: (lambda q: p + q)((2 * p).tagged(tq)))((x + 1).tagged(tp)),
+        "matrix-reduction": lambda tp, tq: (lambda p: (lambda q: pt.sum(p, axis=0) + q)(
+            pt.sum(p * 2, axis=0).tagged(tq)))((m + x).tagged(tp)),
+        "p-read-after-q-stored": lambda tp, tq: (lambda p: (lambda q: (q * 3) + p * p)((p - 5).tagged(tq)))(
+            (x * x).tagged(tp)),
+    }
+    jobs, meta = [], []
+    for sname, build in shapes.items():
+        for (a, ta), (b, tb) in itertools.product(tagsets.items(), repeat=2):
+            e = pt.make_dict_of_named_arrays({"out": build(ta, tb)})
+            jobs.append(cexec.Job(tag=f"{sname}:{a}:{b}", expr=e, runs=[inp], prep=_prep_dedup))
+            meta.append((sname, a, b, e))
+    res = cexec.run_jobs(ctx, jobs)
+    dis = rejected = 0
+    for (sname, a, b, e), r in zip(meta, res):
+        if r.error:
+            if str(r.stage).startswith("c-"):
+                continue
+            if "named" in a + b and r.error_class == "ValueError" and "conflict" in (r.error or ""):
+                rejected += 1
+                continue
+            if a == "none" and b == "none":
+                ctx.broken.append(f"c07-chained:{sname}:untagged-fails:{r.error_class}")
+                continue
+            dis += 1
+            ctx.violation(f"tags:codegen-fails-when-tagged:{r.error_class}:{_short(r.error)}",
+                          f"chain {sname} with tags p={a}, q={b}: {r.stage} failed: {r.error[:300]}",
+                          {"shape": sname, "p": a, "q": b, "error": r.error})
+            continue
+        ref = evaluate(e, inp)["out"]
+        got = r.outputs[0].get("out")
+        if got is None or not close(got, ref):
+            dis += 1
+            ctx.violation("tags:value-differs-from-reference",
+                          f"chain {sname} with tags p={a}, q={b}: out = {None if got is None else np.asarray(got).tolist()}, "
+                          f"NumPy gives {np.asarray(ref).tolist()}",
+                          {"shape": sname, "p": a, "q": b})
+    ctx.note_batch("chained-stored-intermediates-all-tag-pairs", len(jobs), dis, exhaustive=True,
+                   explicit_named_conflicts=rejected)
 
 
 def _describe_tags(p):
